@@ -23,7 +23,7 @@ use serde::{Deserialize, Serialize};
 use std::collections::{BTreeMap, BTreeSet};
 use vcore::amounts::{edge_u128, pick};
 use vcore::direct::Direct;
-use vcore::exp::{exp_spec, is_expired, ExpSpec};
+use vcore::exp::{exp_spec, is_expired_ns, ExpSpec};
 use vcore::{CaseCtx, Family, PropSpec, Tier, Violation};
 
 /// pool of valid addresses that appear in admin lists and as subkeys
@@ -33,7 +33,9 @@ pub const N_ADDR: usize = N_ACTORS + 2;
 /// sender indices: 0..N_ACTORS are the actors, N_ACTORS is one more valid address that never
 /// appears in any admin list or grant (the outsider)
 pub const N_SENDERS: usize = N_ACTORS + 1;
-const DENOMS: [&str; 4] = ["uatom", "ubtc", "ueth", "zzz"];
+/// index 3 is a denom nobody is ever granted, index 4 a different denom that differs from index 0 only in
+/// letter case
+const DENOMS: [&str; 5] = ["uatom", "ubtc", "ueth", "zzz", "UATOM"];
 const VALIDATORS: [&str; 2] = ["valoper-one", "valoper-two"];
 const CHANNELS: [&str; 2] = ["channel-0", "channel-7"];
 const TYPE_URLS: [&str; 2] = ["/cosmos.bank.v1beta1.MsgSend", "/cosmos.authz.v1beta1.MsgExec"];
@@ -160,7 +162,7 @@ pub enum Op {
     Decrease { by: Who, spender: Sp, denom: Den, amt: Amt, exp: Option<ExpSpec> },
     /// perm bits: 1 delegate, 2 redelegate, 4 undelegate, 8 withdraw
     SetPermissions { by: Who, spender: Sp, perm: u8 },
-    Advance { blocks: u8, secs: u16 },
+    Advance { blocks: u8, secs: u16, #[serde(default)] nanos: u32 },
     /// cw1-subkeys only: the stored cw2 version is set to an older release (same storage layout) and
     /// `migrate` runs - a code upgrade, which is not a call of any admin
     Upgrade { from: u8 },
@@ -217,7 +219,7 @@ fn addr_ix() -> BoxedStrategy<u8> {
 }
 /// denom of a coin inside a message
 fn denom_ix() -> BoxedStrategy<Den> {
-    prop_oneof![10 => any::<u16>().prop_map(Den::Held), 4 => (0u8..3).prop_map(Den::Ix), 1 => Just(Den::Ix(3))].boxed()
+    prop_oneof![20 => any::<u16>().prop_map(Den::Held), 8 => (0u8..3).prop_map(Den::Ix), 2 => Just(Den::Ix(3)), 1 => Just(Den::Ix(4))].boxed()
 }
 fn denom_grant() -> BoxedStrategy<Den> {
     prop_oneof![3 => any::<u16>().prop_map(Den::Held), 8 => (0u8..3).prop_map(Den::Ix), 1 => Just(Den::Ix(3))].boxed()
@@ -430,13 +432,14 @@ fn op_group(prop: &str, subkeys: bool) -> BoxedStrategy<Vec<Op>> {
         (w.incr, one((admin_who(), sp(), denom_grant(), amt_grant(), prop_oneof![2 => Just(None), 3 => exp_spec().prop_map(Some)]).prop_map(|(by, spender, denom, amt, exp)| Op::Increase { by, spender, denom, amt, exp }).boxed())),
         (w.decr, one((admin_who(), sp(), denom_decrease(), amt_decrease(), prop_oneof![4 => Just(None), 1 => exp_spec().prop_map(Some)]).prop_map(|(by, spender, denom, amt, exp)| Op::Decrease { by, spender, denom, amt, exp }).boxed())),
         (w.perm, one((admin_who(), sp(), perm_bits()).prop_map(|(by, spender, perm)| Op::SetPermissions { by, spender, perm }).boxed())),
-        (w.adv, one((0u8..4, 0u16..40).prop_map(|(blocks, secs)| Op::Advance { blocks, secs }).boxed())),
+        // block times are not whole seconds: a third of the steps also move the sub-second part
+        (w.adv, one((0u8..4, 0u16..40, prop_oneof![2 => Just(0u32), 1 => 1u32..1_000_000_000]).prop_map(|(blocks, secs, nanos)| Op::Advance { blocks, secs, nanos }).boxed())),
         (1, one((0u8..4).prop_map(|from| Op::Upgrade { from }).boxed())),
         (w.regrant, (any::<u16>(), (0u8..3).prop_map(Den::Ix), 1u128..500, prop_oneof![(1i32..4).prop_map(ExpSpec::Height), (1i64..15).prop_map(ExpSpec::Time)], 0u8..4, proptest::collection::vec(msg_spec(MsgWeights { send: 1, burn: 0, staking: 0, distr: 0, other: 0 }), 1..=2), 1u128..500, proptest::option::weighted(0.7, exp_spec()), 0u8..N_SENDERS as u8)
             .prop_map(|(s, denom, g1, e1, adv, msgs, g2, e2, other)| {
                 vec![
                     Op::Increase { by: Who::Admin(0), spender: Sp::NonAdmin(s), denom: denom.clone(), amt: Amt::Abs(g1), exp: Some(e1) },
-                    Op::Advance { blocks: adv, secs: adv as u16 * 5 },
+                    Op::Advance { blocks: adv, secs: adv as u16 * 5, nanos: 0 },
                     Op::Execute { by: Who::NonAdmin(s), msgs, funds: vec![] },
                     // somebody relays nothing (always accepted), then the admin tops the subkey up again - with
                     // a new deadline, or without one (refused if the allowance has run out in the meantime)
@@ -960,7 +963,7 @@ pub fn run_case(prop: &str, case: &Case, ctx: &mut CaseCtx) -> Result<(), Violat
     let mut pre = w.observe().map_err(qerr)?;
     // the proxy starts out exactly as requested: the listed admins, the requested mutability, and no
     // allowance or permission for anybody (whoever instantiated it, with whatever coins attached)
-    if matches!(prop, "C17" | "C08") {
+    {
         let fresh = (0..N_SENDERS).all(|i| pre.allow[i] == Vis::none());
         if pre.admins != init_admins || pre.mutable != case.mutable || !fresh {
             return Err(v(prop, "instantiate-not-as-requested", format!("after instantiate by sender{} with funds {:?}: admins {:?} (requested {:?}), mutable {} (requested {}), allowances {:?}", case.creator as usize % N_SENDERS, case.init_funds, pre.admins, init_admins, pre.mutable, case.mutable, pre.allow)));
@@ -996,8 +999,9 @@ pub fn run_case(prop: &str, case: &Case, ctx: &mut CaseCtx) -> Result<(), Violat
                 pre = post;
                 continue;
             }
-            Op::Advance { blocks, secs } => {
+            Op::Advance { blocks, secs, nanos } => {
                 w.d.advance(*blocks as u64, *secs as u64);
+                w.d.advance_nanos(*nanos);
                 let post = w.observe().map_err(qerr)?;
                 let at = format!("step {step_no} Advance({blocks} blocks, {secs} s)");
                 if post.admins != pre.admins || post.mutable != pre.mutable {
@@ -1012,7 +1016,7 @@ pub fn run_case(prop: &str, case: &Case, ctx: &mut CaseCtx) -> Result<(), Violat
                     }
                     if post.allow[s] != pre.allow[s] {
                         // time may only hide an allowance (expiry), never alter it
-                        if post.allow[s] != Vis::none() || !is_expired(&pre.allow[s].expires, w.d.height, w.d.time) {
+                        if post.allow[s] != Vis::none() || !is_expired_ns(&pre.allow[s].expires, w.d.height, w.d.now_ns()) {
                             let sig = if prop == "C08" { "advance-changed-allowance" } else { "advance-changed-state" };
                             return Err(v(prop, sig, format!("{at}: visible allowance of sender{s} changed {:?} -> {:?} although it is not a plain expiry", pre.allow[s], post.allow[s])));
                         }
@@ -1050,7 +1054,7 @@ pub fn run_case(prop: &str, case: &Case, ctx: &mut CaseCtx) -> Result<(), Violat
                     Amt::Frac(k) => frac(have, *k),
                 };
                 let coin = Coin { denom: denom.to_string(), amount: Uint128::new(x) };
-                let e = exp.map(|e| e.resolve(w.d.height, w.d.time));
+                let e = exp.map(|e| e.resolve_ns(w.d.height, w.d.now_ns()));
                 let call = if matches!(op, Op::Increase { .. }) { Call::Increase { spender: sp_str, coin, exp: e } } else { Call::Decrease { spender: sp_str, coin, exp: e } };
                 Step { call, sender, target, kinds: vec![] }
             }
@@ -1304,7 +1308,7 @@ fn check_c08(w: &World, s: &Step, ok: bool, pre: &Obs, post: &Obs, at: &str, ctx
                 let q = &post.allow[s.sender];
                 // expiry judged by the documented Expiration semantics (expired when block >= expiry),
                 // independently of what the contract's own queries consider visible
-                if !d.is_empty() && is_expired(&p.expires, w.d.height, w.d.time) {
+                if !d.is_empty() && is_expired_ns(&p.expires, w.d.height, w.d.now_ns()) {
                     return Err(v(prop, "spend-after-expiry", format!("{at}: a bank send was relayed although the subkey's allowance expired ({:?}) at height {} time {}", p.expires, w.d.height, w.d.time)));
                 }
                 for (denom, x) in &d {
@@ -1370,7 +1374,7 @@ fn check_c08(w: &World, s: &Step, ok: bool, pre: &Obs, post: &Obs, at: &str, ctx
                     return Err(v(prop, "grant-by-non-admin", format!("{at}: IncreaseAllowance succeeded for a sender that is not an admin (admins {:?})", pre.admins)));
                 }
                 if let Some(e) = exp {
-                    if is_expired(e, w.d.height, w.d.time) {
+                    if is_expired_ns(e, w.d.height, w.d.now_ns()) {
                         return Err(v(prop, "expired-expiry-accepted", format!("{at}: an allowance was granted with an expiry that has already passed")));
                     }
                 }
@@ -1596,6 +1600,9 @@ fn d_den(u: &mut arbitrary::Unstructured, w: [u32; 3]) -> Den {
     }
 }
 fn d_den_msg(u: &mut arbitrary::Unstructured) -> Den {
+    if arb_bool(u, 1, 31) {
+        return Den::Ix(4);
+    }
     d_den(u, [10, 4, 1])
 }
 fn d_bytes(u: &mut arbitrary::Unstructured) -> Vec<u8> {
@@ -1791,7 +1798,7 @@ fn d_group(u: &mut arbitrary::Unstructured, prop: &str, subkeys: bool) -> Vec<Op
         5 => Op::Increase { by: admin_who(u), spender: d_sp(u), denom: d_den(u, [3, 8, 1]), amt: d_amt_grant(u), exp: if arb_bool(u, 2, 5) { None } else { Some(d_exp(u)) } },
         6 => Op::Decrease { by: admin_who(u), spender: d_sp(u), denom: d_den(u, [8, 2, 1]), amt: d_amt_decrease(u), exp: if arb_bool(u, 4, 5) { None } else { Some(d_exp(u)) } },
         7 => Op::SetPermissions { by: admin_who(u), spender: d_sp(u), perm: d_perm(u) },
-        8 => Op::Advance { blocks: arb_below(u, 4) as u8, secs: arb_below(u, 40) as u16 },
+        8 => Op::Advance { blocks: arb_below(u, 4) as u8, secs: arb_below(u, 40) as u16, nanos: if arb_bool(u, 1, 3) { 1 + u.int_in_range(0u32..=999_999_998).unwrap_or(0) } else { 0 } },
         9 => Op::Upgrade { from: arb_below(u, 4) as u8 },
         _ => {
             // grant; advance; spend; grant again on one subkey
@@ -1807,7 +1814,7 @@ fn d_group(u: &mut arbitrary::Unstructured, prop: &str, subkeys: bool) -> Vec<Op
             let other = arb_below(u, N_SENDERS) as u8;
             return vec![
                 Op::Increase { by: Who::Admin(0), spender: Sp::NonAdmin(s), denom: denom.clone(), amt: Amt::Abs(g1), exp: Some(e1) },
-                Op::Advance { blocks: adv, secs: adv as u16 * 5 },
+                Op::Advance { blocks: adv, secs: adv as u16 * 5, nanos: 0 },
                 Op::Execute { by: Who::NonAdmin(s), msgs, funds: vec![] },
                 Op::Execute { by: Who::Actor(other), msgs: vec![], funds: vec![] },
                 Op::Increase { by: Who::Admin(0), spender: Sp::NonAdmin(s), denom, amt: Amt::Abs(g2), exp: e2 },
